@@ -41,7 +41,8 @@ ASSUMPTIONS = [
 REACH = {t: ["co_value_cross_running", "co_raise_cross_running", "plain_none_cross_running", "plain_value_cross_running",
              "plain_raise_cross_running", "attr_cross_running", "owner_loop_calls", "cross_stopping", "cross_closed",
              "closed_coroutine_call", "yield_injected_in_dispatch", "four_caller_threads", "wrapper_looked_up_elsewhere",
-             "queued_while_not_running_not_started", "queued_while_not_running_between_run_phases"] for t in ("quick", "thorough")}
+             "queued_while_not_running_not_started", "queued_while_not_running_between_run_phases",
+             "fire_and_forget_executed", "handed_over_before_stop_running", "handed_over_before_stop_queued"] for t in ("quick", "thorough")}
 SHARD_TIMEOUT = {"quick": 300, "thorough": 900}
 KINDS = ["co_value", "co_raise", "plain_none", "plain_value", "plain_raise", "attr"]
 
@@ -84,6 +85,14 @@ class Probe:
     def plain_raise(self, tag):
         self._rec(tag, "plain_raise")
         raise ProbeError(tag)
+
+    async def co_forever(self, tag):
+        self._rec(tag, "co_forever")
+        await asyncio.Event().wait()
+
+    def plain_block(self, gate):
+        # keeps the owner's loop busy until the harness opens the gate
+        gate.wait(10)
 
 
 class YieldInjector:
@@ -205,6 +214,10 @@ def run_shard(desc) -> Acc:
                     outcome = ("no-error",)
                 except TypeError:
                     outcome = ("TypeError",)
+            elif kind == "co_value" and state == "running" and caller == "other" and rnd.random() < 0.25:
+                # fire and forget: the caller never awaits what it got back; the call must run all the same
+                kept.append(getattr(proxy, kind)(tag))
+                outcome = ("forgotten",)
             else:
                 res = getattr(proxy, kind)(tag)
                 if inspect.isawaitable(res):
@@ -229,6 +242,7 @@ def run_shard(desc) -> Acc:
             results.append((tag, kind, caller, state, outcome, min(3, inj.count() - y0)))
 
     saved_calls = [0]
+    kept = []  # results of fire-and-forget calls, kept alive until the end of the shard
 
     def lookup_all(proxy):
         out = {}
@@ -355,10 +369,60 @@ def run_shard(desc) -> Acc:
             acc.nontrivial((kind, "other", when, outcomes[tag][0], 0))
             acc.state((kind, "other", when, outcomes[tag][0]))
 
+    async def stop_with_queued_calls_phase(rd):
+        """Coroutine calls handed to the owner's loop *before* force_stop() is called - some already
+        running there, some not yet picked up because the loop is busy - must all come back to their
+        callers (cancelled), none may be left hanging when the loop goes away."""
+        thread = bt.EventLoopThread()
+        complete = await thread.start()
+        probe = Probe()
+        proxy = bt.ThreadsafeProxy(probe, thread.loop)
+        r2 = random.Random(desc["seed"] * 5 + rd)
+        n_running, n_queued = r2.choice([0, 1, 2]), r2.choice([1, 2, 3])
+        futs = []
+        for _ in range(n_running):
+            futs.append(("running", proxy.co_forever(newtag())))
+        if n_running:
+            await thread.run_coroutine_threadsafe(asyncio.sleep(0.01))  # those are started now
+        gate = threading.Event()
+        proxy.plain_block(gate)
+        await asyncio.sleep(0.005)  # the owner's loop is inside plain_block now
+        for _ in range(n_queued):
+            futs.append(("queued", proxy.co_forever(newtag())))
+        thread.force_stop()
+        gate.set()
+        for when, f in futs:
+            acc.case()
+            case = {"phase": "force_stop with calls handed over before it", "call": when}
+            if not inspect.isawaitable(f):
+                acc.violation("C20/relay/coroutine-result", f"coroutine call returned {f!r} instead of an awaitable", case)
+                continue
+            try:
+                await asyncio.wait_for(f, 3.0)
+                out = "returned"
+            except asyncio.CancelledError:
+                out = "cancelled"
+            except asyncio.TimeoutError:
+                out = "unresolved"
+            except BaseException as e:  # noqa: BLE001
+                out = type(e).__name__
+            if out == "unresolved":
+                acc.violation("C20/stop/call-handed-over-before-stop-left-hanging",
+                              f"a coroutine call {when} on the owner's loop when force_stop() was called never came back to its caller", case)
+            else:
+                acc.hit("handed_over_before_stop_" + when)
+            acc.nontrivial(("co_forever", "other", "stop-" + when, out, 0))
+            acc.state(("co_forever", "other", "stop-" + when, out))
+        try:
+            await asyncio.wait_for(asyncio.shield(complete), 5.0)
+        except BaseException:  # noqa: BLE001
+            acc.notes.append("owner thread did not complete within 5 s after force_stop")
+
     async def main():
         rnd = random.Random(desc["seed"])
         for rd in range(desc["rounds"]):
             await paused_owner_phase(rd)
+            await stop_with_queued_calls_phase(rd)
             thread = bt.EventLoopThread()
             complete = await thread.start()
             owner_loop = thread.loop
@@ -482,7 +546,10 @@ def judge_phase(acc, phase, results, log, owner_ident, owner_loop_id):
             elif caller == "other":
                 if len(execs) != 1:
                     acc.violation("C20/exec/call-not-executed-once", f"{kind} from another loop executed {len(execs)} times while the owner loop was running", case)
-                if kind == "co_value" and outcome != ("value", ("v", tag)):
+                if kind == "co_value" and outcome == ("forgotten",):
+                    if len(execs) == 1:
+                        acc.hit("fire_and_forget_executed")
+                elif kind == "co_value" and outcome != ("value", ("v", tag)):
                     acc.violation("C20/relay/coroutine-result", f"co_value returned {outcome}, expected ('v', {tag})", case)
                 elif kind == "co_raise" and outcome != ("ProbeError", tag):
                     acc.violation("C20/relay/coroutine-exception", f"co_raise gave {outcome}, expected ProbeError({tag})", case)
